@@ -84,6 +84,9 @@ RfcPWhy(r) ==
        \* offsets are printed to the minute: only the civil part is settled
        THEN (IF r.out = Err THEN "RFC 2822 printer refused"
              ELSE IF SubSeq(r.out, 1, Len(r.out) - 5) # SubSeq(Rfc2822Txt(f, 0, Rfc2822Off(0)), 1, Len(r.out) - 5) THEN "RFC 2822 text (civil part)"
+             ELSE IF r.re = <<>> THEN "RFC 2822 text refused by the parser"
+             ELSE IF SubSeq(r.re, 1, 7) # f0 THEN "RFC 2822 re-parse (civil part)"
+             ELSE IF r.re[8] - r.v.off >= 60 \/ r.v.off - r.re[8] >= 60 THEN "RFC 2822 offset not within a minute of the zone's"
              ELSE "")
        ELSE IF r.out # Rfc2822Txt(f, r.v.off, Rfc2822Off(r.v.off)) THEN "RFC 2822 text"
        ELSE IF r.re # f0 \o <<r.v.off>> THEN "RFC 2822 re-parse (zoned)"
